@@ -155,6 +155,13 @@ def ratLexeme (q : Rat) : Option String :=
 /-- the carrier of an enum declaration: the `Value` field's type of a struct-wrapped enum, else the type itself -/
 def enumCarrierOf (ty : GoTy) : GoTy := match ty with | .strct [fl] => fl.ty | c => c
 
+/-- the guard of an emitted default assignment: the key is absent from the raw map or null (or there is no raw
+    map at all: the document was `null`) -/
+def dfltAbsent (raw : Option (List (String × Json))) (k : String) : Bool :=
+  match raw with
+  | some kvs => (match alookup k kvs with | none => true | some .null => true | _ => false)
+  | none => true
+
 def jsonToIface (j : Json) : GoVal := match j with | .null => .nil | _ => .iface j
 
 /-- ASCII case folding as encoding/json's field matching does it -/
@@ -367,10 +374,7 @@ mutual
       match v with
       | .required _ | .anyOf _ => runAfter w env f ty rest raw plain
       | .dflt field k dv =>
-          let absent := match raw with
-            | some kvs => (match alookup k kvs with | none => true | some .null => true | _ => false)
-            | none => true
-          if absent then
+          if dfltAbsent raw k then
             let fty : GoTy := fieldTyOf ty field
             if !literalOK env 32 fty dv then .error (.uncompilable "default-literal") else
             match literal env f fty dv with
